@@ -4,6 +4,7 @@ import ExaModel.Driver.Util
    fields fits <field> <v>        -> 1 | 0
    fields enc <field> <v>         -> <hex>            (the bytes `encodeField` gives, fit or not)
    fields dec <field> <hex>       -> <n> | invalid | badlen
+   fields accepts <field> <int>   -> 1 | 0             (the parser's range check, from the generated bounds)
    fields width <field>           -> <n>
    fields limit <field>           -> <n>              (RFC limit, exclusive)
    fields segsplit <n>            -> comma list
@@ -19,6 +20,10 @@ def fieldsLine (st : Unit) (ws : List String) : Unit × String :=
   | ["fits", f, v] =>
     match Field.ofName? f, v.toNat? with
     | some f, some v => (st, if fits f v then "1" else "0")
+    | _, _ => bad
+  | ["accepts", f, v] =>
+    match Field.ofName? f, v.toInt? with
+    | some f, some v => (st, if accepts f v then "1" else "0")
     | _, _ => bad
   | ["enc", f, v] =>
     match Field.ofName? f, v.toNat? with
